@@ -453,6 +453,8 @@ def run_sim(plan, stats):
     objs = _materialise(plan['pool'], 'sim')
     for o in plan['pool']:
         bump('layout.' + o['kind'] + '.' + o.get('layout', '-'))
+        if o.get('layout') not in ('C', 'list', None):
+            bump('fault.delivery_' + o['layout'])
     base = [worlds.snapshot(o) for o in objs]
     type_only = _type_only(plan)
     results = {c: {} for c in range(len(plan['clients']))}
@@ -491,6 +493,7 @@ def run_sim(plan, stats):
                                  'detail': 'shared pool object %d (%s) changed during %s' % (pi, plan['pool'][pi]['kind'], step['fn'])})
                 base[pi] = worlds.snapshot(obj)
         if step['fn'] == 'caller.fill' and o[0] == 'ok':
+            bump('fault.caller_buffer_refilled')
             for (cc, kk) in list(live):
                 if _aliases(results[cc][kk][1], o[1]):
                     live.discard((cc, kk))
@@ -504,6 +507,7 @@ def run_sim(plan, stats):
         if ent.get('dup'):
             ndup += 1
             bump('dups')
+            bump('fault.DUP_redelivery')
             if e != encs[c][k]:
                 findings.append({'oracle': 'P2', 'key': 'P2dup:%s' % step['fn'], 'where': [si, c, k], 'fn': step['fn'],
                                  'detail': {'first': _short(encs[c][k]), 'again': _short(e)}})
@@ -518,6 +522,7 @@ def run_sim(plan, stats):
         bump('fn.' + q, n)
     for s, n in poison_sites.items():
         bump('poison.' + s, n)
+        bump('fault.poisoned_allocation', n)
     return encs, findings, events, {'dups': ndup, 'poison_hits': sum(poison_sites.values())}
 
 
@@ -565,6 +570,8 @@ def execute(plan, stats=None, want_events=True):
             ref_findings.extend(ff)
             st['forks'] = st.get('forks', 0) + 1
             st['iso_calls'] = st.get('iso_calls', 0) + ncalls
+            st['fault.client_restarted_in_pristine_process'] = st.get('fault.client_restarted_in_pristine_process', 0) + 1
+            st['fault.call_replayed_in_pristine_process'] = st.get('fault.call_replayed_in_pristine_process', 0) + ncalls
     finally:
         if _SERVER is not None:
             _SERVER.close()
